@@ -71,10 +71,7 @@ func init() {
 		return m.tb.FFromBits(m.newInput(m.argStr(a[1]), "float", term.BV64))
 	})
 	reg(vrtT+"IntRange", func(m *Machine, fr *frame, a []Value) Value {
-		x := m.newInput(m.argStr(a[1]), "int", term.BV64)
-		lo, hi := a[2].(*term.T), a[3].(*term.T)
-		m.assume(m.tb.And(m.tb.SLe(lo, x), m.tb.SLe(x, hi)))
-		return x
+		return m.rangedInput(m.argStr(a[1]), "int", a[2].(*term.T), a[3].(*term.T))
 	})
 	reg(vrtT+"Choose", func(m *Machine, fr *frame, a []Value) Value {
 		n := m.argInt(a[2], "Choose")
@@ -106,9 +103,8 @@ func init() {
 		return out
 	})
 	reg(vrtT+"Time", func(m *Machine, fr *frame, a []Value) Value {
-		x := m.newInput(m.argStr(a[1]), "time", term.BV64)
 		lo, hi := a[2].(*term.T), a[3].(*term.T)
-		m.assume(m.tb.And(m.tb.SLe(lo, x), m.tb.SLe(x, hi)))
+		x := m.rangedInput(m.argStr(a[1]), "time", lo, hi)
 		m.assume(m.tb.And(m.tb.SLe(m.tb.BV(64, uint64(minNS)), x), m.tb.SLe(x, m.tb.BV(64, uint64(maxNS)))))
 		return TimeV{NS: x}
 	})
@@ -607,6 +603,14 @@ func init() {
 		return mkStr(sliceBytes(s[len(s)-1].([]Value)))
 	})
 	reg("(*strings.Builder).copyCheck", nop)
+	reg("internal/bytealg.MakeNoZero", func(m *Machine, fr *frame, a []Value) Value {
+		n := m.argInt(a[0], "MakeNoZero")
+		out := make([]Value, n)
+		for i := range out {
+			out[i] = m.tb.BV(8, 0)
+		}
+		return out
+	})
 	reg("strings.Clone", func(m *Machine, fr *frame, a []Value) Value { return a[0] })
 	reg("internal/abi.NoEscape", func(m *Machine, fr *frame, a []Value) Value { return a[0] })
 	reg("internal/abi.Escape", func(m *Machine, fr *frame, a []Value) Value { return a[0] })
@@ -665,6 +669,34 @@ func sliceBytes(s []Value) []*term.T {
 		out[i] = v.(*term.T)
 	}
 	return out
+}
+
+// rangedInput creates a 64-bit input constrained to [lo,hi]. With constant bounds the
+// value is encoded as lo + zero_extend(k fresh bits) so that its range is structural
+// (the simplifier then narrows div/rem and folds comparisons).
+func (m *Machine) rangedInput(name, kind string, lo, hi *term.T) *term.T {
+	tb := m.tb
+	if lo.IsConst() && hi.IsConst() && lo.Int() <= hi.Int() && uint64(hi.Int()-lo.Int()) < 1<<40 {
+		spread := uint64(hi.Int() - lo.Int())
+		if spread == 0 {
+			m.ps.inputs = append(m.ps.inputs, Input{Name: name, Kind: kind, Bits: 64, terms: []*term.T{lo}})
+			return lo
+		}
+		k := 1
+		for (uint64(1)<<k)-1 < spread {
+			k++
+		}
+		raw := tb.Var(fmt.Sprintf("%s#%d", name, len(m.ps.inputs)), term.BVSort(k))
+		x := tb.Add(tb.ZExt(raw, 64), lo)
+		m.ps.inputs = append(m.ps.inputs, Input{Name: name, Kind: kind, Bits: 64, terms: []*term.T{x}})
+		if (uint64(1)<<k)-1 != spread {
+			m.assume(tb.ULe(raw, tb.BV(k, spread)))
+		}
+		return x
+	}
+	x := m.newInput(name, kind, term.BV64)
+	m.assume(tb.And(tb.SLe(lo, x), tb.SLe(x, hi)))
+	return x
 }
 
 func (m *Machine) assume(c *term.T) {
@@ -749,7 +781,7 @@ func (m *Machine) floorDiv(x *term.T, k int64) *term.T {
 
 // timeTrunc models Time.Truncate / Time.Round: both work on the absolute time since
 // year 1, i.e. on ns + K with K = 62135596800e9 (which does not fit 64 bits), so
-//   r = ((ns + 2^63) mod d + (K - 2^63) mod d) mod d        (all unsigned 64-bit)
+//   r = (floormod(ns, d) + K mod d) mod d
 func (m *Machine) timeTrunc(t TimeV, d *term.T, round bool) Value {
 	tb := m.tb
 	if !d.IsConst() {
@@ -760,11 +792,25 @@ func (m *Machine) timeTrunc(t TimeV, d *term.T, round bool) Value {
 		return t
 	}
 	K := new(big.Int).Mul(big.NewInt(62135596800), big.NewInt(1000000000))
-	K.Sub(K, new(big.Int).Lsh(big.NewInt(1), 63))
 	c := new(big.Int).Mod(K, big.NewInt(dv)).Uint64()
 	dd := tb.BV(64, uint64(dv))
-	np := tb.Add(t.NS, tb.BV(64, uint64(1)<<63))
-	r := tb.URem(tb.Add(tb.URem(np, dd), tb.BV(64, c)), dd)
+	// floor-mod of the signed Unix nanoseconds, then shift by K mod d
+	fm := func(x *term.T) *term.T {
+		if x.ROK && x.RLo >= 0 {
+			return tb.URem(x, dd)
+		}
+		if x.ROK && x.RLo > -(1<<62) && x.RHi < 1<<62 {
+			// shift by a multiple of d that makes the operand non-negative
+			mshift := ((-x.RLo + dv - 1) / dv) * dv
+			if mshift/dv == (-x.RLo+dv-1)/dv && mshift < 1<<62 {
+				return tb.URem(tb.Add(x, tb.BV(64, uint64(mshift))), dd)
+			}
+		}
+		pos := tb.URem(x, dd)
+		negv := tb.Sub(tb.BV(64, uint64(dv-1)), tb.URem(tb.Sub(tb.Neg(x), tb.BV(64, 1)), dd))
+		return tb.Ite(tb.SLt(x, tb.BV(64, 0)), negv, pos)
+	}
+	r := tb.URem(tb.Add(fm(t.NS), tb.BV(64, c)), dd)
 	if !round {
 		return TimeV{NS: tb.Sub(t.NS, r)}
 	}
